@@ -1776,6 +1776,14 @@ def r04_7_strip_before_construct(ctx, rid='R04.7'):
             r.check(not extra, 'the only condition on stripping is "key is not a constructor parameter"', g.key('strip-condition'),
                     g.loc(c), 'stripping of an extra attribute is additionally conditional on %s: tags below such values survive'
                     % extra)
+    # no normal exit of the strip step bypasses the loop over the pairs
+    loops = [l for l in g.walk() if isinstance(l, ast.For) and norm(l.iter) == '%s.value' % gnode]
+    for rn in g.cfg.returns():
+        r.check(bool(loops) and all(g.cfg.dominates(g.nid(l.iter), rn) for l in loops),
+                'every normal exit of __strip_extra_attributes has gone through the loop over the pairs', g.key('early-exit'),
+                g.loc(g.cfg.nodes[rn].ast) if g.cfg.nodes[rn].ast is not None else g.loc(),
+                '__strip_extra_attributes can return before looking at the pairs (early exit): tagged values under extra keys keep '
+                'their tags')
     # self.__loader is the loader of this call
     st = [n for n in f.walk() if isinstance(n, ast.Assign) and any(norm(t) == 'self.__loader' for t in n.targets)]
     r.check(bool(st) and all(norm(n.value) == f.fi.params[1] for n in st)
